@@ -2,4 +2,5 @@
 (* Stub of the generated data module (the harness overwrites it per run). *)
 EXTENDS Integers, Sequences
 Obs == <<>>
+DayRange == {}
 ====
